@@ -94,9 +94,11 @@ func (StreamingCRLFileReader) ReadCRL(crlProcessor CRLProcessor, crlFilePath str
 	if err != nil {
 		return nil, err
 	}
+	//position behind the tbsCertList, its optional elements can only exist in front of this position
+	tbsCertListEnd := reader.BytesRead + tbsCertListTL.Length.Length.Int64()
 	version := 1
 	if versionExists(reader) {
-		version, err = parseVersion(reader, version)
+		version, err = parseVersion(&reader, version)
 		if err != nil {
 			return nil, err
 		}
@@ -132,16 +134,17 @@ func (StreamingCRLFileReader) ReadCRL(crlProcessor CRLProcessor, crlFilePath str
 	if err != nil {
 		return nil, err
 	}
-	if revokedCertificateListExists(reader) {
-		err := parseRevokedCertificateList(issuer, reader, crlProcessor)
+	if reader.BytesRead < tbsCertListEnd && revokedCertificateListExists(reader) {
+		err := parseRevokedCertificateList(issuer, &reader, crlProcessor)
 		if err != nil {
 			return nil, err
 		}
 	}
-	var crlExtensions *[]pkix.Extension = nil
+	//crl extensions are optional, an absent extensions element is handled like an empty list
+	var crlExtensions = new([]pkix.Extension)
 	var crlNumber *big.Int = nil
-	if extensionsExists(reader, version) {
-		crlExtensions, err = parseExtensions(reader)
+	if reader.BytesRead < tbsCertListEnd && extensionsExists(reader, version) {
+		crlExtensions, err = parseExtensions(&reader)
 		if err != nil {
 			return nil, err
 		}
@@ -213,10 +216,10 @@ func nextUpdateTimeExists(reader hashing.HashingReaderWrapper) bool {
 	return possibleTimeTL.Tag == asn1.TagUTCTime
 }
 
-func parseVersion(reader hashing.HashingReaderWrapper, version int) (int, error) {
+func parseVersion(reader *hashing.HashingReaderWrapper, version int) (int, error) {
 	//skip version tagLength
-	_, _ = asn1parser.ReadTagLength(&reader)
-	readUint8, err := asn1parser.ReadUint8(&reader)
+	_, _ = asn1parser.ReadTagLength(reader)
+	readUint8, err := asn1parser.ReadUint8(reader)
 	if err != nil {
 		return 0, err
 	}
@@ -232,10 +235,10 @@ func versionExists(reader hashing.HashingReaderWrapper) bool {
 	return tagLength.Tag == asn1crypto.INTEGER && tagLength.Length.Length.Cmp(big.NewInt(int64(1))) == 0
 }
 
-func parseExtensions(reader hashing.HashingReaderWrapper) (*[]pkix.Extension, error) {
-	_, _ = asn1parser.ReadTagLength(&reader) //skip context specific tag
+func parseExtensions(reader *hashing.HashingReaderWrapper) (*[]pkix.Extension, error) {
+	_, _ = asn1parser.ReadTagLength(reader) //skip context specific tag
 	extensions := new([]pkix.Extension)
-	err := asn1parser.ReadStruct(&reader, extensions)
+	err := asn1parser.ReadStruct(reader, extensions)
 	if err != nil {
 		return nil, err
 	}
@@ -250,8 +253,8 @@ func extensionsExists(reader hashing.HashingReaderWrapper, version int) bool {
 	return version > 1 && asn1parser.IsContextSpecificTagWithId(0, contextSpecificTagLength)
 }
 
-func parseRevokedCertificateList(issuer *pkix.RDNSequence, reader hashing.HashingReaderWrapper, processor CRLProcessor) error {
-	revokedCertListTag, err := asn1parser.ReadTagLength(&reader)
+func parseRevokedCertificateList(issuer *pkix.RDNSequence, reader *hashing.HashingReaderWrapper, processor CRLProcessor) error {
+	revokedCertListTag, err := asn1parser.ReadTagLength(reader)
 	if err != nil {
 		return err
 	}
@@ -259,8 +262,10 @@ func parseRevokedCertificateList(issuer *pkix.RDNSequence, reader hashing.Hashin
 	if err != nil {
 		return err
 	}
-	for {
-		revokedCertSeq, err := asn1parser.PeekTagLength(&reader, 0)
+	//the list ends where its length says, whatever follows (crl extensions are optional) does not belong to it
+	revokedCertListEnd := reader.BytesRead + revokedCertListTag.Length.Length.Int64()
+	for reader.BytesRead < revokedCertListEnd {
+		revokedCertSeq, err := asn1parser.PeekTagLength(reader, 0)
 		if err != nil {
 			return err
 		}
@@ -269,7 +274,7 @@ func parseRevokedCertificateList(issuer *pkix.RDNSequence, reader hashing.Hashin
 			break
 		}
 		revokedCert := new(pkix.RevokedCertificate)
-		err = asn1parser.ReadStruct(&reader, revokedCert)
+		err = asn1parser.ReadStruct(reader, revokedCert)
 		if err != nil {
 			return err
 		}
